@@ -570,6 +570,32 @@ impl<'a> Iterator for BfsIterator<'a> {
     }
 }
 
+/// Bring a `DW_AT_discr_value` constant into the value range of the discriminant type.
+///
+/// The compiler stores the constant in the smallest fixed-size form (`DW_FORM_data1/2/4/8`),
+/// which says nothing about signedness, and `gimli::AttributeValue::sdata_value` sign-extends it
+/// by the size of the form. For an unsigned discriminant with the top bit of the form set
+/// (for example, variant number 200 of an enum with a `u8` tag, or the niche value 200)
+/// this gives a negative number, while the discriminant read from the debugee memory is
+/// a non-negative one, and the variant is never found. Reduce the constant modulo the
+/// size of the discriminant type and re-interpret it with the signedness of that type,
+/// this is exactly what a discriminant read from memory looks like.
+fn discr_value_in_tag_range(value: i64, discr_scalar: Option<(u64, bool)>) -> i64 {
+    let Some((byte_size, signed)) = discr_scalar else {
+        return value;
+    };
+    if byte_size == 0 || byte_size >= 8 {
+        return value;
+    }
+    let bits = byte_size * 8;
+    let truncated = (value as u64) & ((1u64 << bits) - 1);
+    if signed && (truncated >> (bits - 1)) & 1 == 1 {
+        (truncated | !((1u64 << bits) - 1)) as i64
+    } else {
+        truncated as i64
+    }
+}
+
 /// DWARF DIE parser.
 pub struct TypeParser {
     known_type_ids: HashSet<TypeId>,
@@ -834,6 +860,21 @@ impl TypeParser {
                 .or_else(|| variant.type_ref().and_then(&mut member_from_ref))
         });
 
+        // size and signedness of the discriminant (tag) type
+        let discr_scalar = discr_type
+            .as_ref()
+            .and_then(|member| member.type_ref)
+            .and_then(|type_id| match self.processed_types.get(&type_id) {
+                Some(TypeDeclaration::Scalar(scalar)) => Some((
+                    scalar.byte_size?,
+                    matches!(
+                        scalar.encoding,
+                        Some(gimli::DW_ATE_signed) | Some(gimli::DW_ATE_signed_char)
+                    ),
+                )),
+                _ => None,
+            });
+
         let variants = variant_part
             .map(|vp| {
                 let variant_offsets = vp.for_each_children_filter_collect(|child| {
@@ -867,7 +908,10 @@ impl TypeParser {
                     }
                 });
 
-                Some((variant.discr_value(), member?))
+                let discr_value = variant
+                    .discr_value()
+                    .map(|value| discr_value_in_tag_range(value, discr_scalar));
+                Some((discr_value, member?))
             })
             .collect::<HashMap<_, _>>();
 
